@@ -335,6 +335,32 @@ def api_log(rng, T):
     return spec
 
 
+def api_typed_two(rng, T):
+    """C01 through typed attribute writes of a YncaApi object while ANOTHER YncaApi object of the same process is initialised against another
+    receiver and stays alive: the first object's writes travel on the first object's wire"""
+    spec = api_init(rng, T)
+    present = ["MAIN"] + (["ZONE2"] if rng.random() < 0.5 else [])
+    spec["present"] = present
+    spec["device"]["avail"] = {s: "Ready" for s in present}
+    spec["device"]["table"] = device_table(rng, T, ["SYS"] + present, p_answer=0.3)
+    spec["device"]["latency"] = rng.choice([0.0, 0.02])
+    spec["device"].pop("unsolicited", None)
+    spec["device"].pop("swallow_first", None)
+    spec["healthy"] = True
+    oth = ["MAIN"] + [x for x in ("ZONE2", "TUN") if rng.random() < 0.6]
+    spec["other_device"] = {"type": "scripted", "latency": 0.0, "avail": {s_: "Ready" for s_ in oth}, "table": device_table(rng, T, ["SYS"] + oth, p_answer=0.3), "echo_put": True}
+    spec["other_keep"] = True
+    after = []
+    for _ in range(rng.randint(1, 5)):
+        acc = rng.choice([p.lower() for p in present])
+        attr, cls, mem = rng.choice([("pwr", "Pwr", "ON"), ("pwr", "Pwr", "STANDBY"), ("mute", "Mute", "ON"), ("mute", "Mute", "OFF")])
+        after.append(["assign_enum", acc, attr, cls, mem])
+        if rng.random() < 0.4:
+            after.append(["sleep", rng.choice([0.05, 0.3])])
+    spec["after"] = after + [["sleep", 16.0], ["close", "final"]]
+    return spec
+
+
 def api_init_fault(rng, T, total_replies=None, total_bytes=None):
     """C14 flavour: initialize() with a fault at a chosen position of the start-up dialogue"""
     spec = api_init(rng, T)
